@@ -47,6 +47,9 @@ QCmpRoutes == RoutesTo(Date(2020, 5, 1), Date(2020, 5, 17)) \cup RoutesTo(Date(2
 (* ---- month-day routes ---- *)
 MdStrRoutes == {[k |-> "str", f |-> f, m |-> m, d |-> d] : f \in {"MM-DD", "--MM-DD", "MMDD", "--MMDD"}, m \in 0..13, d \in {0, 1, 28, 29, 30, 31, 32}}
 MdFullStrRoutes == {[k |-> "str", f |-> "YYYY-MM-DD", y |-> y, m |-> m, d |-> d] : y \in {1972, 2021, 2024}, m \in {2, 12}, d \in {28, 29, 31}}
+                   \* full dates just outside the limits of a PlainDate: the year is dropped all the same
+                   \cup {[k |-> "str", f |-> "YYYY-MM-DD", y |-> 275760, m |-> 9, d |-> 14], [k |-> "str", f |-> "YYYY-MM-DD", y |-> 275760, m |-> 12, d |-> 31],
+                         [k |-> "str", f |-> "YYYY-MM-DD", y |-> -271821, m |-> 4, d |-> 18], [k |-> "str", f |-> "YYYY-MM-DD", y |-> -271821, m |-> 1, d |-> 1]}
 MdDateRoutes == {[k |-> "date", d |-> dt] : dt \in UNION {DaysOfMonth(2020, m, 1, DIM(2020, m)) : m \in 1..12} \cup DaysOfMonth(2021, 2, 1, 28)
                                                    \cup DaysOfMonth(-271821, 4, 19, 20) \cup DaysOfMonth(275760, 9, 12, 13)}
 MdNewNoRef == {[k |-> "new", m |-> m, d |-> d, ovf |-> ovf] : m \in {0, 1, 2, 4, 6, 9, 11, 12, 13, 255}, d \in {0, 1, 28, 29, 30, 31, 32, 255}, ovf \in Ovfs}
